@@ -2,6 +2,9 @@ module polyverif
 
 go 1.16
 
-require github.com/TimothyStiles/poly v0.0.0
+require (
+	github.com/TimothyStiles/poly v0.0.0
+	lukechampine.com/blake3 v1.0.0
+)
 
 replace github.com/TimothyStiles/poly => /repo
